@@ -1,22 +1,26 @@
 //@include prelude/header.rs
 // Unit scan_imports — C14 (discovery + plugin-status part), C12 (termination of the worklist), C11 (no panic):
 //   FixtureDatabase::scan_imported_fixture_modules (src/fixtures/scanner.rs), extracted verbatim.
+// (text of the function as of /repo commits 415c9c5, 402a101, e159908: already_cached work set, un-processing of modules
+//  marked after they were examined, analyze_file instead of _fresh for discovered modules that have index entries)
 // L1: the real function proves `exists h: Hist. hist_post(old, final, h)` — h is the ghost history of the run
-//     (prelude/scanimp_spec.rs): per processed file the state it was processed in (Snap), per new plugin mark its reason
-//     (Mark), per discovered module its discoverer (src), and the analyses in execution order (AStep).  Clause groups:
+//     (prelude/scanimp_spec.rs): per examined file the state of its LAST examination (Snap), per new plugin mark its
+//     reason (Mark), per queued module where it came from (Src), and the analyses in execution order (AStep).
 //       post_frame (F)  constants untouched; plugin_fixture_files only GAINS the keys of h.why; the index is the replay of
 //                       the analyses h.tr over an abstract step function; file_cache changes by these analyses only
 //       post_P     (P)  every new mark comes from a star import / pytest_plugins entry of a file that WAS a plugin file
-//                       when it was processed; every such edge of such a file leads to a plugin file (one-step closure)
-//       post_D     (D)  the start set (is_initial) is processed; import targets of a processed file are processed or were
-//                       cached at that moment; a processed file was cached at the start / analysed / missing / unreadable;
-//                       only start-set files and discovered modules are processed
-//       post_R     (R)  first analyze_file_fresh steps (module not cached when its turn came, text read from disk), then
-//                       analyze_file steps for exactly the readable modules that were cached when they were marked, each
+//                       when it was examined; every such edge of such a file leads to a plugin file; every examined file
+//                       that ends up a plugin file was last examined AS a plugin file (=> transitive closure, L2)
+//       post_D     (D)  the start set (is_initial) is examined; EVERY import target of an examined file is examined (cached
+//                       or not); an examined file was cached at the start / analysed / missing / unreadable; only
+//                       start-set files and import targets are examined
+//       post_R     (R)  first the analyses of discovered modules (not cached when their turn came, text read from disk;
+//                       analyze_file iff the index had definitions/usages entries for the module, else analyze_file_fresh),
+//                       then analyze_file for exactly the readable modules that were cached when they were marked, each
 //                       once, with all marks of the run in place
-//     (T) every loop has a `decreases` Verus discharges; outer loop: scan_universe() \ processed_files shrinks in every
-//         iteration that does not `break` (new_modules non-empty => a file was newly processed in this iteration).
-//     C11: `lock().unwrap()` (VpLock: never poisoned), `iteration += 1` on i32 (bounded by |scan_universe()| < 2^31).
+//     (T) every loop has a `decreases` Verus discharges; outer loop: scan_measure = 2*|U \ plugin files| + |U \ processed|
+//         (a mark may un-process one file: -2 +1) drops in every iteration that does not `break`.
+//     C11: `lock().unwrap()` (VpLock: never poisoned), `iteration += 1` on i32 (bounded by 3*|scan_universe()| < 2^31).
 // L2 (end of this file): lemma_C14_* from the property texts; proof canaries; one exec canary (@as) with five injected
 //     `assert(false)` (V1-V5) that must all fail (assumed callee contracts are not contradictory in their contexts).
 // ASSUMED (external_body / axioms), besides the shims of the prelude:
@@ -25,7 +29,7 @@
 //     resolve_module_to_file (resolve + FINITE-UNIVERSE assumption: canonicalised results lie in scan_universe());
 //     analyze_file / analyze_file_fresh: hand-written FRAME stubs (an_step / cache_next), see there;
 //   * prelude/scanimp_spec.rs: axiom_content_of (get_file_content = cached text else disk; proved in unit memo), fs_read,
-//     is_conftest_or_test_name, scan_universe; prelude/scanimp_shims.rs: `for x in &HashSet`, FromIterator for HashSet;
+//     is_conftest_or_test_name, scan_universe; prelude/scanimp_shims.rs: `for x in &HashSet`, FromIterator for HashSet, vp_chain (T5 wrapper of Iterator::chain);
 //   * @wrapexpr helpers: vp_is_conftest_or_test (OsStr file-name test), vp_read_to_string (std::fs::read_to_string);
 //   * VpLock (Mutex::lock never poisoned, no thread model).
 // NOT assumed: prelude/scanimp_iter.rs (completeness of filter/map/collect) is PROVED from vstd's iterator specs.
